@@ -8,7 +8,7 @@ for d in "$@"; do
     p=${m%%-*}
     S=/var/tmp/rd-$m; rm -rf $S; mkdir -p $S; cp -r /repo/pycaption $S/
     (cd $S && patch -p1 -s -i /verif/seeded/$m/patch.diff >/dev/null 2>&1) || { echo "$m PATCH DOES NOT APPLY"; rm -rf $S; continue; }
-    out=$(VERIF_REPO=$S ./check $p 2>&1 | tail -1)
+    out=$(VERIF_REPO=$S timeout 900 ./check $p 2>&1 | tail -1)
     echo "$m $p $(echo "$out" | grep -o 'undecided.*')"
     rm -rf $S
   done
